@@ -1,0 +1,6 @@
+//go:build !verif
+
+package scipipe
+
+// verifPoint is a no-op unless the library is built with the "verif" tag.
+func verifPoint(name string, keys ...string) {}
